@@ -163,20 +163,27 @@ class NpProxy:
         if "a_min" in kw:
             a_min = kw["a_min"]
         if any_sym(a) or any_sym(a_min) or any_sym(a_max):
-            def one(v):
+            def one(v, lo, hi):
                 r = v
-                if a_min is not None and not (isinstance(a_min, float) and math.isinf(a_min)):
-                    r = sym_ite(_lt(r, a_min), a_min, r)
-                if a_max is not None and not (isinstance(a_max, float) and math.isinf(a_max)):
-                    r = sym_ite(_lt(a_max, r), a_max, r)
+                if lo is not None and not (isinstance(lo, (float, _np.floating)) and math.isinf(lo)):
+                    r = sym_ite(_lt(r, lo), lo, r)
+                if hi is not None and not (isinstance(hi, (float, _np.floating)) and math.isinf(hi)):
+                    r = sym_ite(_lt(hi, r), hi, r)
                 return r
 
-            if isinstance(a, _np.ndarray):
-                out = _np.empty(a.shape, dtype=object)
-                for idx in _np.ndindex(*a.shape):
-                    out[idx] = one(a[idx])
+            if isinstance(a, _np.ndarray) or isinstance(a_min, _np.ndarray) or isinstance(a_max, _np.ndarray):
+                arrs = [_np.asarray(a, dtype=object)]
+                lo = _np.asarray(a_min, dtype=object) if a_min is not None else None
+                hi = _np.asarray(a_max, dtype=object) if a_max is not None else None
+                shape = _np.broadcast(*[x for x in (arrs[0], lo, hi) if x is not None]).shape
+                A = _np.broadcast_to(arrs[0], shape)
+                L = _np.broadcast_to(lo, shape) if lo is not None else None
+                H = _np.broadcast_to(hi, shape) if hi is not None else None
+                out = _np.empty(shape, dtype=object)
+                for idx in _np.ndindex(*shape):
+                    out[idx] = one(A[idx], None if L is None else L[idx], None if H is None else H[idx])
                 return out
-            return one(a)
+            return one(a, a_min, a_max)
         return _np.clip(a, a_min, a_max)
 
     # -- reductions that need help on object arrays --------------------------------------
